@@ -72,12 +72,11 @@ theorem simpleAdc_eq_spec (hR : IsRounding rnd) {bits w : ℕ} {vmin vmax : ℚ}
   simp only [simpleAdc, adcSpec]
   by_cases hs : rnd ((fullScale bits : ℕ) : ℚ) ≤ adcY rnd bits vmin vmax v
   · simp only [hs, decide_true, if_true]
-    have : castU 64 (trunc 0) = .ok 0 := by
-      have h0 : trunc (0:ℚ) = 0 := by
-        rw [trunc_of_nonneg (le_refl _)]; exact Rat.floor_intCast 0
-      rw [h0]
-      simp [castU]
-    simp only [this, fullScale_mod bits w hw]
+    have h0 : trunc (0:ℚ) = 0 := by
+      rw [trunc_of_nonneg (le_refl _)]; exact Rat.floor_intCast 0
+    have hc : castU 64 0 = .ok 0 := by simp [castU]
+    rw [h0, hc]
+    simp only [Except.map, fullScale_mod bits w hw]
   · simp only [hs, decide_false, if_false, Bool.false_eq_true]
     have hle : adcY rnd bits vmin vmax v ≤ ((fullScale bits : ℕ) : ℚ) :=
       hR.le_of_lt_rnd (adcY_fix hR bits vmin vmax v) (not_le.mp hs)
@@ -91,10 +90,12 @@ theorem simpleAdc_eq_spec (hR : IsRounding rnd) {bits w : ℕ} {vmin vmax : ℚ}
     have hlt : (adcY rnd bits vmin vmax v).floor < 2 ^ 64 := by
       have : ((fullScale bits : ℕ) : ℤ) < 2 ^ 64 := by exact_mod_cast h64
       omega
-    simp only [castU, hf0, hlt, and_self, if_true]
+    have hc : castU 64 (adcY rnd bits vmin vmax v).floor = .ok (adcY rnd bits vmin vmax v).floor.toNat := by
+      simp only [castU, hf0, hlt, and_self, if_true]
+    rw [hc]
+    simp only [Except.map]
     congr 1
     apply Nat.mod_eq_of_lt
-    have hN := fullScale_mod bits w hw
     have : (adcY rnd bits vmin vmax v).floor.toNat ≤ fullScale bits := by omega
     have : fullScale bits < 2 ^ w := by
       have h1 : 2 ^ bits ≤ 2 ^ w := Nat.pow_le_pow_right (by norm_num) hw
